@@ -318,7 +318,10 @@ func slotOrigins(p *Program, v ssa.Value, want string, depth int, seen map[ssa.V
 	if depth > 6 {
 		return nil
 	}
-	sl := &Slicer{P: p, KeepExtract: true}
+	sl := &Slicer{P: p, KeepExtract: true, ThroughCallArgs: func(call *ssa.Call, arg ssa.Value) bool {
+		n := calleeShort(&call.Call)
+		return n == "append" || n == "copy" // data-carrying builtins: the result contains the arguments
+	}}
 	for _, o := range sl.Origins(v) {
 		if seen[o] {
 			continue
@@ -326,7 +329,7 @@ func slotOrigins(p *Program, v ssa.Value, want string, depth int, seen map[ssa.V
 		seen[o] = true
 		switch x := o.(type) {
 		case *ssa.Const:
-			if x.Value != nil {
+			if x.Value != nil && x.Value.String() != "0" {
 				bad = append(bad, "constant "+x.Value.String())
 			}
 		case *ssa.Extract:
